@@ -86,6 +86,14 @@ static var* R;                  /* stack-resident root slots (scanned by the col
 static int K;                   /* universe size */
 static int NV;                  /* number of distinct values (1 or 2) */
 static int two, propC05, propC09, propC10, propC12, pairs_mode, memo, alias_op;
+/* light=1: the per-state oracle reads the nodes through the white-box view only (no mem/get/iteration between two operations),
+** get(k) and mem(k) are operations of the alphabet, and the key asked for last is part of the state key: whatever a lookup
+** leaves behind in hidden state (a memo of the node found last, a cursor) survives until the next operation */
+static int light, lastq = -1;
+/* ... together with the (at most qwin) operations applied since: a memo that one modification path forgets to drop shows only
+** in 'query ; modification ; modification ; query', and a key made of the visible tree and the last query alone merges that
+** history with shorter ones that end in the same tree.  After more than qwin operations the query is forgotten (a bound). */
+static int qwin = 2, since[4], since_n;
 static var KT, VT;              /* key and value types */
 static int kkind, vkind;        /* 0 int, 1 str, 2 probe, 3 blob (values only) */
 static var keyobj[MAXK];
@@ -265,7 +273,7 @@ static void reset(void) {
   TA = mk_tree(); A_managed = 0;
   TB = NULL; B_managed = 0;
   memset(&MA, 0, sizeof MA); memset(&MB, 0, sizeof MB);
-  MA.exists = 1;
+  MA.exists = 1; lastq = -1; since_n = 0;
   kind("init");
   hist_n = 0;
 }
@@ -310,6 +318,10 @@ static size_t canon_one(var t_, char* buf, size_t cap) {
 static size_t canon(char* buf, size_t cap) {
   size_t o = canon_one(TA, buf, cap);
   if (two) { o += snprintf(buf + o, cap - o, " B:"); o += canon_one(TB, buf + o, cap - o); }
+  if (light && lastq >= 0) {
+    o += snprintf(buf + o, cap - o, " q%d", lastq);
+    for (int i = 0; i < since_n; i++) o += snprintf(buf + o, cap - o, ";%d", since[i]);
+  }
   return o;
 }
 
@@ -550,10 +562,38 @@ static int check_eqhash(void) {
 
 static struct vf_set checked;   /* canonical strings whose black-box oracle already passed */
 
+/* light oracle: the bindings read off the nodes themselves must be exactly the reference's */
+static int wb_seen[MAXK];
+static int wb_walk(struct Tree* m, var node, struct model* mo, const char* who, int depth) {
+  if (node == NULL) return 0;
+  if (depth > 64) { vf_violation(L("wb-too-deep"), NULL, "%s: path longer than 64 nodes", who); return 1; }
+  if (wb_walk(m, *Tree_Left(m, node), mo, who, depth + 1)) return 1;
+  int ki = key_index(Tree_Key(m, node));
+  if (ki < 0) { vf_violation(L("wb-foreign-key"), NULL, "%s: a node holds a key outside the universe", who); return 1; }
+  if (!mo->present[ki]) { vf_violation(L("wb-ghost"), NULL, "%s: a node holds key#%d, which the reference does not have", who, ki); return 1; }
+  if (wb_seen[ki]++) { vf_violation(L("wb-duplicate"), NULL, "%s: key#%d is stored in two nodes", who, ki); return 1; }
+  if (val_at(Tree_Val(m, node), ki) != mo->val[ki]) { vf_violation(L("wb-value"), NULL, "%s: the node of key#%d holds value %" PRId64 ", last set value is %d", who, ki, val_at(Tree_Val(m, node), ki), mo->val[ki]); return 1; }
+  return wb_walk(m, *Tree_Right(m, node), mo, who, depth + 1);
+}
+static int wb_check(var t, struct model* mo, const char* who) {
+  struct Tree* m = t;
+  memset(wb_seen, 0, sizeof wb_seen);
+  if (wb_walk(m, m->root, mo, who, 0)) return 1;
+  for (int i = 0; i < K; i++) if (mo->present[i] && !wb_seen[i]) { vf_violation(L("wb-missing"), NULL, "%s: no node holds key#%d, which the reference has", who, i); return 1; }
+  if (m->nitems != (size_t)mcount(mo)) { vf_violation(L("wb-count"), NULL, "%s: nitems=%zu, reference has %d bindings", who, m->nitems, mcount(mo)); return 1; }
+  return 0;
+}
+
 static int check(void) {
   if (audit(TA, "A")) return 1;
   if (TB && audit(TB, "B")) return 1;
   if (propC05 && check_ledger()) return 1;
+  if (light) {
+    if (wb_check(TA, &MA, "A")) return 1;
+    if (TB && wb_check(TB, &MB, "B (must be independent of A)")) return 1;
+    vf.evaluations++;
+    return 0;
+  }
   /* The audit has just established that the node structure is exactly what canon()
   ** prints (shape, colours, keys, values, parent links, nitems, types), and the answers
   ** to len/mem/get/iteration are a function of that structure alone, so the black-box
@@ -635,10 +675,12 @@ static void build_alphabet(void) {
 /* after the miscellaneous operations: set(k_i, refused value) for every key (picky values), set(refused key, v) (picky keys) */
 static int nrefval(void) { return vpicky ? K : 0; }
 static int nrefkey(void) { return kpicky ? 1 : 0; }
-static int nops_total(void) { return NV * K + K + nmisc + nrefval() + nrefkey(); }
+static int nops_base(void) { return NV * K + K + nmisc + nrefval() + nrefkey(); }
+static int nops_total(void) { return nops_base() + (light ? 2 * K : 0); }
 
 static void opname(int op, char* buf, size_t cap) {
   /* called by the explorer once per history element per transition: no printf here */
+  if (op >= nops_base()) { int a = op - nops_base(); snprintf(buf, cap, "%s(k%d)", a < K ? "get" : "mem", a % K); return; }
   if (op < NV * K + K && cap >= 12) {
     int isset = op < NV * K;
     int k = isset ? op / NV : op - NV * K;
@@ -671,6 +713,26 @@ static int expect_fail(var e, var a1, var a2, var a3, const char* what, const ch
 static int apply_inner(int op) {
   var e;
   char before[2048];
+  if (op >= nops_base()) {
+    int a = op - nops_base(), k = a % K;
+    lastq = a;
+    if (a < K) {
+      kind(MA.present[k] ? "get-present" : "get-absent");
+      volatile var got = NULL;
+      e = VF_CATCH(got = get(TA, keyobj[k]));
+      if (MA.present[k]) {
+        if (e) { vf_violation(L("get-raises"), NULL, "get(key#%d) raised %s for a present key", k, vf_exc_name(e)); return VF_BAD; }
+        if (val_at(got, k) != MA.val[k]) { vf_violation(L("get-value"), NULL, "get(key#%d)=%" PRId64 ", last set value is %d", k, val_at(got, k), MA.val[k]); return VF_BAD; }
+      } else if (e != KeyError) { vf_violation(L("get-absent"), NULL, "get(key#%d) of an absent key gave %s, KeyError expected", k, vf_exc_name(e)); return VF_BAD; }
+      return VF_OK;
+    }
+    kind(MA.present[k] ? "mem-present" : "mem-absent");
+    volatile bool isin = false;
+    e = VF_CATCH(isin = mem(TA, keyobj[k]));
+    if (e) { vf_violation(L("mem-raises"), NULL, "mem(key#%d) raised %s", k, vf_exc_name(e)); return VF_BAD; }
+    if ((int)isin != MA.present[k]) { vf_violation(L("mem"), NULL, "mem(key#%d)=%d, reference says %d", k, (int)isin, MA.present[k]); return VF_BAD; }
+    return VF_OK;
+  }
   if (op < NV * K) {
     int k = op / NV, v = op % NV;
     kind(MA.present[k] ? "set-existing" : "set-new");
@@ -931,6 +993,10 @@ static int apply_inner(int op) {
 
 static int apply(int op) {
   int r = apply_inner(op);
+  if (light && r != VF_SKIP) {
+    if (op >= nops_base()) since_n = 0;
+    else if (lastq >= 0) { if (since_n < qwin) since[since_n++] = op; else { lastq = -1; since_n = 0; } }
+  }
   if (r != VF_SKIP && hist_n < 4096) hist[hist_n++] = op;
   return r;
 }
@@ -1277,6 +1343,77 @@ done:
   vf_extra("max_height_seen", "%d", maxheight);
 }
 
+
+/* ---- big clears: a whole large tree given up at once ------------------------------------
+** The ladder drains its trees key by key.  Here a tree of N keys (four insertion orders: the
+** descending and ascending fills give the deepest left / right spines a red-black tree can have)
+** is cleared in one call - resize(t, 0), assign(t, empty tree), del_raw(t) - in a forked child so
+** that a crash is a verdict for this case only; afterwards (for the two calls that keep the
+** object) the tree must be empty and work again: 100 keys set, found, iterated in order. */
+static struct { int n, ord, how; } bc;
+static void bigclear_child(void* arg) {
+  (void)arg;
+  int N = bc.n;
+  var t = new_raw(Tree, Int, Int);
+  for (int i = 0; i < N; i++) {
+    int k = bc.ord == 0 ? i : bc.ord == 1 ? N - 1 - i : bc.ord == 2 ? ((i & 1) ? N - 1 - i / 2 : i / 2) : (int)(((int64_t)i * 7919) % N);
+    set(t, $I(k), $I(k % 10));
+  }
+  if (len(t) != (size_t)N) _exit(3);
+  if (bc.how == 2) { del_raw(t); _exit(0); }
+  if (bc.how == 0) resize(t, 0);
+  else { var e = new_raw(Tree, Int, Int); assign(t, e); del_raw(e); }
+  struct Tree* m = t;
+  if (len(t) != 0 || m->root != NULL) _exit(4);
+  if (mem(t, $I(0)) || mem(t, $I(N - 1)) || iter_init(t) != Terminal) _exit(5);
+  for (int k = 0; k < 100; k++) set(t, $I((k * 37) % 100), $I(k));
+  if (len(t) != 100) _exit(6);
+  int64_t prev = 0; size_t cnt = 0; int dir = 0;
+  foreach (k in t) {
+    if (cnt > 0) { int d = c_int(k) < prev ? -1 : 1; if (c_int(k) == prev || (dir && d != dir)) _exit(7); dir = d; }
+    prev = c_int(k); cnt++;
+    if (cnt > 104) _exit(7);
+  }
+  if (cnt != 100) _exit(7);
+  for (int k = 0; k < 100; k++) if (!mem(t, $I(k))) _exit(8);
+  del_raw(t);
+  _exit(0);
+}
+
+static void bigclear(void) {
+  vf.phase = "tree-bigclear"; in_ladder = 1;
+  const char* sizes = vf_param("sizes", "100,5000,400000");
+  static const char* oname[] = { "ascending", "descending", "alternating-ends", "stride" };
+  static const char* hname[] = { "resize(t,0)", "assign(t,empty-tree)", "del_raw(t)" };
+  int r_n = -1, r_o = -1, r_h = -1;
+  if (vf.replay && sscanf(vf.replay, "bigclear n=%d insert-order=%d how=%d", &r_n, &r_o, &r_h) != 3) { fprintf(stderr, "replay: bad bigclear case\n"); _exit(2); }
+  const char* p = sizes;
+  static char rsizes[32];
+  if (vf.replay) { snprintf(rsizes, sizeof rsizes, "%d", r_n); p = rsizes; }
+  while (*p) {
+    while (*p == ',') p++;
+    if (!isdigit((unsigned char)*p)) break;
+    int N = (int)strtol(p, (char**)&p, 10);
+    if (N < 1) continue;
+    for (int ord = 0; ord < 4; ord++) for (int how = 0; how < 3; how++) {
+      if (vf.replay && (ord != r_o || how != r_h)) continue;
+      if (vf_deadline_hit()) return;
+      vf_watchdog(600);
+      vf_set_cur("bigclear n=%d insert-order=%d how=%d | %d Int keys inserted %s, then %s", N, ord, how, N, oname[ord], hname[how]);
+      kind(how == 0 ? "bigclear-resize0" : how == 1 ? "bigclear-assign-empty" : "bigclear-del");
+      bc.n = N; bc.ord = ord; bc.how = how;
+      struct vf_child c = vf_fork_run(bigclear_child, NULL, 300);
+      vf.executions++; vf.transitions += (uint64_t)N + 1; vf.states++; vf.nontrivial += N >= 1000;
+      static const char* why[] = { "", "", "", "len-after-fill", "not-empty-after-clear", "lookup-after-clear", "len-after-refill", "iteration-after-refill", "mem-after-refill" };
+      if (c.timed_out) vf_violation(L("does-not-terminate"), NULL, "no result within 300 s");
+      else if (c.signaled) { char lb[64]; snprintf(lb, sizeof lb, "crash/signal-%d", c.sig); vf_violation(L(lb), NULL, "the child died with signal %d while a tree of %d keys was filled and cleared", c.sig, N); }
+      else if (c.status != 0) vf_violation(L(c.status >= 3 && c.status <= 8 ? why[c.status] : "raises"), NULL, "child status %d (%s)", c.status, c.status >= 3 && c.status <= 8 ? why[c.status] : "uncaught exception or abort");
+      vf.evaluations++;
+      if (vf_want_sample()) vf_sample("%s", vf_cur);
+    }
+  }
+}
+
 int main(int argc, char** argv) {
   vf_init(argc, argv);
   var roots[4] = { NULL, NULL, NULL, NULL };
@@ -1297,6 +1434,8 @@ int main(int argc, char** argv) {
   if (NV < 1) NV = 1; if (NV > 2) NV = 2;
   two = (int)vf_param_i("two", 0);
   memo = (int)vf_param_i("memo", 1);
+  light = (int)vf_param_i("light", 0);
+  qwin = (int)vf_param_i("qwin", 2); if (qwin > 4) qwin = 4;
   alias_op = (int)vf_param_i("alias", 0);
   cross_op = (int)vf_param_i("cross", 0);
   table_op = (int)vf_param_i("table", 0);
@@ -1312,6 +1451,12 @@ int main(int argc, char** argv) {
   KT = kkind == 0 ? Int : kkind == 1 ? String : kpicky ? Picky : Probe;
   VT = vkind == 2 ? (vpicky ? Picky : Probe) : vkind == 3 ? Blob : Int;
 
+  if (vf_param_is("mode", "bigclear", "bfs")) {
+    kkind = 0; KT = Int; vkind = 0; VT = Int;
+    bigclear();
+    vf_extra("key_universe", "\"Int keys 0..N-1 for each N in sizes, 4 insertion orders x 3 ways of giving the whole tree up\"");
+    vf_finish();
+  }
   if (vf_param_is("mode", "ladder", "bfs")) {
     if (kkind == 2) { kkind = 0; KT = Int; }
     vkind = 0; VT = Int;
